@@ -125,6 +125,7 @@ def run(tier):
     rule_R5(res, prog)
     rule_R6(res, prog)
     rule_R7(res, prog)
+    rule_R8(res, prog)
     return res.finish()
 
 
@@ -502,3 +503,45 @@ def rule_R7(res, prog):
                              "the handshake" % (fn.relfile, ln, fn.name, [p_[1] for p_ in esc[-6:]]), file=fn.relfile, line=ln)
             res.instance(rid, "%s:%s master secret wiped -> IN_LIMBO only after the ticket state left SENT_TICKET" % (fn.name, ln), esc is None, finding=f_)
     res.floor(rid, 3)
+
+
+def rule_R8(res, prog):
+    """'proved possession ... over this handshake's own transcript or key-exchange parameters': the TLS <= 1.2
+    ServerKeyExchange signature is bound to THIS handshake only through the client's random.  In every digest arm of
+    computeSkeHash (the value the client verifies the signature against) ssl->sec.clientRandom is among the hashed inputs;
+    without it a ServerHello .. ServerKeyExchange flight recorded from an earlier handshake verifies for any later client.
+    (C10.R7 compares the complete order with RFC 5246; this rule states the C04 consequence.)"""
+    from sa import cfgutil as cu
+    rid = "C04.R8"
+    res.rule(rid, "ServerKeyExchange signature input: every digest arm of computeSkeHash hashes the client random")
+    fn = prog.fn("computeSkeHash")
+    dom = cu.dominators(fn)
+    sws = [b for b in fn.blocks if (b.get("term") or {}).get("k") == "switch"]
+    if not sws:
+        raise AnalysisBroken("C04.R8: no switch in computeSkeHash")
+    n = 0
+    for sw in sws:
+        for sc in sw["succ"]:
+            if sc.get("case") is None or sc.get("b") is None:
+                continue
+            upd = []
+            for b in fn.blocks:
+                if sc["b"] not in dom[b["id"]]:
+                    continue
+                for i, ln, x in cu.block_exprs(b):
+                    for m in walk(x):
+                        if m.get("k") == "call" and (m.get("fn") or "").endswith("Update") and len(m.get("a", [])) >= 2:
+                            upd.append((ln, [q.get("f") for q in walk(m["a"][1]) if q.get("k") == "mem" and q.get("f") in ("clientRandom", "serverRandom")]))
+            if not upd:
+                continue
+            n += 1
+            ok = any("clientRandom" in fl for (_, fl) in upd)
+            f_ = None
+            if not ok:
+                f_ = Finding(PROP, rid, fn.name, "ServerKeyExchange signature not bound to the client random",
+                             "%s:%s computeSkeHash(), arm for digest length %s: none of the %d hashed inputs is ssl->sec.clientRandom: the "
+                             "signature a server made in an earlier handshake (same server random and parameters replayed) verifies for this "
+                             "client too - no proof of possession over this handshake" % (fn.relfile, upd[0][0], sc["case"], len(upd)),
+                             file=fn.relfile, line=upd[0][0])
+            res.instance(rid, "computeSkeHash: arm %s hashes the client random" % sc["case"], ok, finding=f_)
+    res.floor(rid, 2)
